@@ -179,7 +179,10 @@ async function workerMain(id, tier, shard, nshards, seed) {
       src: check.requests(r.minimal).map((q) => ({ src: q.src, opts: q.opts, ts: q.ts, entry: q.entry })),
     })),
   };
-  process.send({ type: 'done', shard, out }, () => process.exit(0));
+  // the worker leaves only after the parent has acknowledged the result (an exit racing the IPC read would lose it)
+  process.on('message', (m) => { if (m && m.type === 'ack') process.exit(0); });
+  process.send({ type: 'done', shard, out });
+  setTimeout(() => process.exit(0), 60000).unref();
 }
 
 // ---------------------------------------------------------------- parent
@@ -212,12 +215,16 @@ async function parentMain(id, tier, opts) {
     }
   }
   const results = await Promise.all(
-    Array.from({ length: nshards }, (_, shard) => new Promise((resolve) => {
-      const child = fork(runPath, ['--worker', id, tier, String(shard), String(nshards), String(seed)], { stdio: ['ignore', 'inherit', 'inherit', 'ipc'], env: Object.assign({}, process.env, prepFile ? { VERIF_PREPARED: prepFile } : {}) });
-      let got = null;
-      child.on('message', (m) => { if (m && m.type === 'done') got = m.out; });
-      child.on('exit', (code, signal) => resolve(got || { crashed: true, code, signal, shard }));
-    })),
+    Array.from({ length: nshards }, (_, shard) => {
+      const runShard = (attempt) => new Promise((resolve) => {
+        const child = fork(runPath, ['--worker', id, tier, String(shard), String(nshards), String(seed)], { stdio: ['ignore', 'inherit', 'inherit', 'ipc'], env: Object.assign({}, process.env, prepFile ? { VERIF_PREPARED: prepFile } : {}) });
+        let got = null;
+        child.on('message', (m) => { if (m && m.type === 'done') { got = m.out; try { child.send({ type: 'ack' }); } catch (e) {} } });
+        child.on('exit', (code, signal) => resolve(got || { crashed: true, code, signal, shard, attempt }));
+      });
+      // a shard is a deterministic function of (check, tier, shard, seed): a worker that vanished is re-run once before it counts
+      return runShard(1).then((r) => (r.crashed ? runShard(2).then((r2) => (r2.crashed ? r2 : Object.assign(r2, { shardRetried: r }))) : r));
+    }),
   );
   if (prepFile) try { fs.unlinkSync(prepFile); } catch (e) {}
   const crashed = results.filter((r) => r.crashed);
